@@ -56,7 +56,7 @@ def job(ck, prog, natbin, derive, focus, quick):
             ck.obligations += 1
             ck.engine("%s[%s]: leaf %s %s" % (derive, focus.tag, l.status, str(l.info)[:300]))
             continue
-        src = D.Src(prog, l, lambda l=l: ck.model_of(l.pc))
+        src = D.Src(prog, l, lambda l=l: ck.model_of(l.pc), darling=focus.only_darling)
         text = src.item_source(focus.field_names)
         req = "(derive %s %s)" % (derive, sx_str(text))
         ck.reach(out[0])
